@@ -402,6 +402,10 @@ func runShard(a MonArgs, work string, k, of, total, timeoutS, memKB int, casesFi
 		sh := fmt.Sprintf("%sexec timeout -s QUIT -k 10 %d %s %s >%s 2>&1", lim, timeoutS, a.Bin, args, logf)
 		cmd := exec.Command("sh", "-c", sh)
 		cmd.Env = append(os.Environ(), "GOTRACEBACK=all", "VERIF_WORKDIR="+work)
+		if a.Ctx.Race {
+			rl := filepath.Join(work, fmt.Sprintf("race-%d-%d", k, attempt))
+			cmd.Env = append(cmd.Env, "GORACE=halt_on_error=0 log_path="+rl, "VERIF_RACELOG="+rl)
+		}
 		err := cmd.Run()
 		done := readShard(out, r)
 		r.logs = append(r.logs, logf)
